@@ -56,7 +56,7 @@ CHECKS.update({
          "Round trip held on every visited setup/play state; 10^6-10^8 structured hostile diagrams and random strings returned Ok or Err without unwinding, with and without overflow checks.",
          "The string space is sampled (structured mutation classes listed in the evidence).", "§6 C15"),
  "C16": ("runtime monitor: reference grammar vs the four notation parsers, exhaustive short strings + value spaces, catch_unwind, two build profiles",
-         "All values round-trip; every string of length <=4 over a 36-symbol hostile alphabet and every printable-ASCII string of length <=3 is accepted iff the reference grammar accepts it, with the same value, and nothing panics.",
+         "All values round-trip; every string of length <=4 over a 45-symbol hostile alphabet and every printable-ASCII string of length <=3 is accepted iff the reference grammar accepts it, with the same value, and nothing panics.",
          "Longer strings are sampled.", "§6 C16"),
  "C17": ("runtime monitor: pairwise distinctness over the completely enumerated one-feature changes of each base state",
          "For every base state the finite space of one-feature changes (64x13 contents, 12 kinds x free squares, side, 4 steps, 641 statuses) was enumerated completely and all hashes were pairwise distinct.",
@@ -73,6 +73,24 @@ CHECKS.update({
 })
 
 NOT_YET = {}
+
+# additions made while validating against seeded changes (DESIGN.md 14.3); appended to the level notes
+COMMON = " In 12 % of the games every engine call on the monitored state is preceded by the same call on look-alike decoy states (decoy.rs); a quarter of the games ask valid_actions() before valid_actions_no_rep() and carry one state object along with clone_from; half of the turn trees are walked level by level in transposition order."
+TWINS = " Every 4th (thorough: 12th) visited play state is also judged on synthetic twins built with the public constructors: re-assembled, saturated and half-saturated past (decoy::judged_twins) - these twins are not known to be reachable."
+EXTRA = {
+ "C01": COMMON + TWINS, "C04": COMMON + TWINS, "C07": COMMON + TWINS, "C12": COMMON + TWINS,
+ "C02": COMMON, "C03": COMMON, "C05": COMMON, "C06": COMMON, "C08": COMMON, "C09": COMMON, "C10": COMMON, "C13": COMMON, "C19": COMMON + " clone_from is part of the call battery.",
+ "C14": COMMON + " A scratch state overwritten with clone_from at every visited state (previous content: a sibling line or a type-permuted look-alike) is asked the same questions.",
+ "C15": COMMON,
+ "C11": " W5b / W5d scripts are also started at move 1-3.",
+ "C16": " Also every ordered triple of the 263 action values printed back to back (18.2 M) and every sequence of four parses over {move, one-character token, derived token} (6.7 M parses).",
+ "C17": " The side / step / status families are also enumerated in a second un-hashed context (capture-this-turn flag set, later move, longer history); hashes of states reached by play are compared with those of every local variant (one square's content, one piece one square elsewhere, side, step, status incl. other piece types on the pending square).",
+ "C18": " Also: fresh rounds (threads released together onto a never-queried turn, oracle computed afterwards), migration rounds (states built on one thread continued on another), simultaneous children (different turn-ending actions of one never-expanded state at the same instant), sibling and history duels, pool rounds.",
+ "C20": " The long game is played twice in lock-step (a twin with its own history list): every exercised state is also probed with ==, Hash and a HashSet look-up against its twin; step-away-and-back states, a continued twin queried at step 3, and a second game on the same thread after everything was dropped.",
+}
+for k, v in EXTRA.items():
+    t = CHECKS[k]
+    CHECKS[k] = (t[0], t[1], t[2] + v, t[3])
 
 def main():
     checks = []
